@@ -109,7 +109,7 @@ PairCfg paircfg_from_plan(const Plan &p) {
     c.cb_s = (int) p.get("cb_s", CB_ALLOW_ALL);
     c.cb_allow_alert_c = (int) p.get("cb_alert", 0);
     c.client_trusts_server = p.get("trust", 1) != 0;
-    c.forge_server_cert = p.get("forge_s") != 0; c.forge_client_cert = p.get("forge_c") != 0; c.forge_mode = (int) p.get("forge_mode"); c.max_frag = (int) p.get("maxfrag"); c.send_sni = p.get("sni") != 0;
+    c.forge_server_cert = p.get("forge_s") != 0; c.forge_client_cert = p.get("forge_c") != 0; c.forge_mode = (int) p.get("forge_mode"); c.max_frag = (int) p.get("maxfrag"); c.send_sni = (int) p.get("sni");
     c.expected_name = p.gets("expected_name");
     c.max_early_data = (int) p.get("early", 0);
     c.ems_c = (int) p.get("ems_c", 0);
